@@ -3,11 +3,17 @@ import CJ.Gen.LockTable
 # C09 — lockset: shared state is only touched under the mutex that guards it
 
 Decided over `CJ.Gen.lockTable`, which is REGENERATED from `pkg/station/lib/*.go` and
-`cmd/application/*.go` (go/ast) on every run: for each function, the mutexes it takes and in which
-mode, the protected fields it reads/writes, and the package functions it calls.  `CJ.Gen.guardOf`
-says which mutex guards which field: the registry mutex `m` (`decoys`, `decoysTimeouts`, `Valid`,
-`regCount`), `reloadMu` (`PhantomSelector`, `GeoIP`) and `policyMu` (the parsed block / allow lists).
-A function that does not take a mutex itself inherits the weakest mode among all its callers.
+`cmd/application/*.go` (go/ast) on every run.  For each function (and each `go func(){…}` closure, a
+row of its own) the table holds its LOCK-OPERATION PROGRAM reduced to regions — every acquisition
+must be `Lock(); defer Unlock()` or a straight-line `Lock() … Unlock()` pair, else the row is not
+`structured` —, every access to a protected field with the mode in which the function itself holds
+the guarding mutex AT THAT POSITION, and every call with the mutexes held at the call site.
+`CJ.Gen.guardOf` says which mutex guards which field: the registry mutex `m` (`decoys`,
+`decoysTimeouts`, `Valid`, `regCount`, and the timeout record's `status` / `registrationTime`),
+`reloadMu` (`PhantomSelector`, `GeoIP`), `policyMu` (the parsed block / allow lists) and the
+statistics maps' `genMutex` / `lvMutex` / `ttMutex`.
+An access outside the function's own regions is covered only if EVERY call site of the function
+holds the mutex (directly, or because the calling function is itself only entered with it held).
 -/
 namespace CJ.Props.C09Lockset
 open CJ.Gen
@@ -16,22 +22,22 @@ def LockMode.rank : LockMode → Nat
   | .none => 0 | .R => 1 | .W => 2
 
 def minMode (a b : LockMode) : LockMode := if LockMode.rank a ≤ LockMode.rank b then a else b
+def maxMode (a b : LockMode) : LockMode := if LockMode.rank a ≤ LockMode.rank b then b else a
 
-def ownMode (f : FnFacts) (mu : String) : LockMode :=
-  match f.locks.find? (fun l => l.1 == mu) with
+def heldAt (h : List (String × LockMode)) (mu : String) : LockMode :=
+  match h.find? (fun l => l.1 == mu) with
   | some l => l.2
   | none => .none
 
-/-- effective mode in which mutex `mu` is held while `f`'s body runs: its own, else the weakest among
-its callers -/
-def effLock (tbl : List FnFacts) (mu : String) : Nat → FnFacts → LockMode
-  | 0, f => ownMode f mu
+/-- the mode in which `mu` is held whenever `f` is ENTERED: the weakest, over all call sites of `f`,
+of what is held at the call site or was already held when the calling function was entered;
+`.none` if nothing calls `f` (entry points, goroutine bodies) or the fuel runs out -/
+def entryLock (tbl : List FnFacts) (mu : String) : Nat → FnFacts → LockMode
+  | 0, _ => .none
   | fuel + 1, f =>
-    if ownMode f mu != .none then ownMode f mu
-    else
-      match tbl.filter (fun c => c.calls.contains f.short) with
-      | [] => .none
-      | cs => cs.foldl (fun acc c => minMode acc (effLock tbl mu fuel c)) .W
+    match tbl.flatMap (fun c => (c.calls.filter (fun cs => cs.callee == f.short)).map (fun cs => (c, cs))) with
+    | [] => .none
+    | sites => sites.foldl (fun acc s => minMode acc (maxMode (heldAt s.2.held mu) (entryLock tbl mu fuel s.1))) .W
 
 def guardFor (field : String) : String :=
   match guardOf.find? (fun g => g.1 == field) with
@@ -47,33 +53,62 @@ def exempt (f : FnFacts) (field : String) : Bool :=
   (f.short == "removeOldRegistrations" && field == "Valid") ||
   (f.short == "ParseBlocklists" && guardFor field == "policyMu")
 
-def rowOk (tbl : List FnFacts) (f : FnFacts) : Bool :=
-  f.writes.all (fun x => exempt f x || effLock tbl (guardFor x) 4 f == .W) &&
-  f.reads.all (fun x => exempt f x || effLock tbl (guardFor x) 4 f != .none)
+/-- the mode in which the guarding mutex is held at an access: by the function itself at that
+position, or on entry -/
+def modeAt (tbl : List FnFacts) (f : FnFacts) (a : Access) : LockMode :=
+  maxMode a.held (entryLock tbl (guardFor a.field) 4 f)
 
-/-- **Lockset**: every write to a protected field happens in a function that holds — or is only ever
-called while holding — its mutex in write mode; every read under at least the read lock. -/
+def accessOk (tbl : List FnFacts) (f : FnFacts) (a : Access) : Bool :=
+  exempt f a.field || (if a.write then modeAt tbl f a == .W else modeAt tbl f a != .none)
+
+def rowOk (tbl : List FnFacts) (f : FnFacts) : Bool := f.accesses.all (accessOk tbl f)
+
+/-- **Lockset**: every write to a protected field happens at a position where the function holds — or
+in a function that is only ever entered while holding — its mutex in write mode; every read under at
+least the read lock. -/
 theorem protected_fields_locked : ∀ f ∈ lockTable, rowOk lockTable f = true := by
   decide +kernel
 
+/-- **Lock-operation programs are structured**: in every function each acquisition of a tracked
+mutex is `Lock(); defer Unlock()` (not in a loop) or a straight-line `Lock() … Unlock()` pair that
+nothing can leave early, no release is unmatched and no mutex is acquired again inside its own
+region.  A critical section that is split (`Unlock(); …; Lock()` in the middle), an early release, an
+error path that forgets the release all break this. -/
+theorem lock_programs_structured : ∀ f ∈ lockTable, f.structured = true := by
+  decide +kernel
+
+def mutexNames : List String := (guardOf.map (·.2)).eraseDups
+
 /-- does running `f` acquire mutex `mu`, itself or through a callee? -/
 def acquires (tbl : List FnFacts) (mu : String) : Nat → FnFacts → Bool
-  | 0, f => ownMode f mu != .none
+  | 0, f => f.locks.any (fun l => l.1 == mu)
   | fuel + 1, f =>
-    ownMode f mu != .none || (tbl.filter (fun c => f.calls.contains c.short)).any (fun c => acquires tbl mu fuel c)
+    f.locks.any (fun l => l.1 == mu) ||
+      (tbl.filter (fun c => f.calls.any (fun cs => cs.callee == c.short))).any (fun c => acquires tbl mu fuel c)
 
-/-- **No nested acquisition**: a function that holds a mutex never calls — directly or through other
-functions — one that acquires the same mutex again. With Go's writer-preferring `RWMutex` a nested
-read lock deadlocks as soon as a writer arrives in between (the defect C13 had), and a nested write
-lock deadlocks at once. -/
-theorem no_nested_acquire : ∀ f ∈ lockTable, ∀ l ∈ f.locks,
-    (lockTable.filter (fun c => f.calls.contains c.short)).all (fun c => !acquires lockTable l.1 3 c) = true := by
+/-- **No nested acquisition**: at a call site where a mutex is held — by the calling function at that
+position, or already on its entry — the callee never acquires the same mutex again, directly or
+through other functions. With Go's writer-preferring `RWMutex` a nested read lock deadlocks as soon
+as a writer arrives in between (the defect C13 had), and a nested write lock deadlocks at once. -/
+theorem no_nested_acquire : ∀ f ∈ lockTable, ∀ cs ∈ f.calls, ∀ mu ∈ mutexNames,
+    maxMode (heldAt cs.held mu) (entryLock lockTable mu 4 f) ≠ .none →
+    (lockTable.filter (fun c => c.short == cs.callee)).all (fun c => !acquires lockTable mu 3 c) = true := by
   decide +kernel
 
 /-- the table is not empty and contains the functions the property is about (non-vacuity) -/
 theorem table_covers : ∀ n ∈ ["track", "register", "markActive", "removeRegistration", "getRegistrations",
-    "getExpiredRegistrations", "registrationExists", "OnReload", "Selector", "GeoIPDatabase",
-    "isBlocklistedCovertAddr", "IsBlocklistedPhantom"], lockTable.any (fun f => f.short == n) = true := by
+    "getExpiredRegistrations", "isExpired", "registrationExists", "OnReload", "Selector", "GeoIPDatabase",
+    "isBlocklistedCovertAddr", "IsBlocklistedPhantom", "AddReg", "ExpireReg", "AddRegStats", "PrintAndReset",
+    "HandleRegUpdates", "startIngestThread", "ingestRegistration"],
+    lockTable.any (fun f => f.short == n) = true := by
+  decide +kernel
+
+/-- and the table does contain writes that are only covered through their callers (`track`) and
+accesses that are covered at their own position (`markActive` writing `status`) -/
+theorem table_has_inherited_and_own :
+    lockTable.any (fun f => f.short == "track" && f.accesses.any (fun a => a.write && a.held == .none)) = true ∧
+    lockTable.any (fun f => f.short == "markActive" &&
+      f.accesses.any (fun a => a.field == "status" && a.write && a.held == .W)) = true := by
   decide +kernel
 
 end CJ.Props.C09Lockset
